@@ -74,7 +74,9 @@ def r_thermal(p, seed=0):
     ph.run_mesh(p.get("mesh", [3, 2, 2]), is_mesh_symmetry=p.get("meshsym", True))
     outs = []
     for lang in ("C", "Py"):
-        tp = ThermalProperties(ph.mesh, cutoff_frequency=p.get("cutoff"))
+        # a tiny cutoff keeps rounding-noise "frequencies" of the acoustic modes at Gamma (|f| ~ 1e-8 THz) out of the sums:
+        # for them kT ln(1-exp(-x)) is ill-conditioned and libm/numpy differ by 1 ulp in exp
+        tp = ThermalProperties(ph.mesh, cutoff_frequency=p.get("cutoff", 1e-4))
         tp.temperatures = np.array([0.0, 50.0, 300.0, 1000.0])
         tp.run(lang=lang)
         outs.append(np.array(tp.thermal_properties[1:]))
